@@ -471,7 +471,7 @@ def features(spec):
 EDGE_SHAPES = ['lin', 'sat', 'tanh', 'two_op', 'offset', 'two_in', 'two_in']
 
 
-def add_edge_templates(spec, rnd, frac=0.6, n_templates=None, names='plain', mixed_overrides=False, bind_second=True):
+def add_edge_templates(spec, rnd, frac=0.6, n_templates=None, names='plain', mixed_overrides=False, bind_second=True, shapes=None):
     """Turn a random subset of the plain (template-less, undelayed) edges of `spec` into templated edges: algebraic edge
     operators with one free input, one output and constants that are overridden per edge with unique values.
     names='plain': edge-local variable names that occur nowhere else; 'shared': names that node operators use too."""
@@ -488,7 +488,7 @@ def add_edge_templates(spec, rnd, frac=0.6, n_templates=None, names='plain', mix
     spec.setdefault('edge_types', {})
     ets = []
     for i in range(n_templates):
-        shape = rnd.choice(EDGE_SHAPES)
+        shape = rnd.choice(shapes or EDGE_SHAPES)
         if names == 'plain':
             xin, out, g, y, c = f'xe{i}', f'me{i}', f'ge{i}', f'ye{i}', f'ce{i}'
         else:
